@@ -14,6 +14,7 @@
 (*   "pairs"  every unordered pair (incl. a separately built twin) inside  *)
 (*            every family x every history of length PairDepth over the    *)
 (*            pair alphabet                                                *)
+(*   "near"   the same over the near pairs only (quick tier)               *)
 (*   "deep"   representative pairs and triples x every history of length   *)
 (*            DeepDepth over the full alphabet                             *)
 (*   "small"  a small universe for the pure model check / negative         *)
@@ -21,7 +22,7 @@
 (*   "sim"    any family pair / triple, full alphabet (for -simulate)      *)
 (***************************************************************************)
 EXTENDS C01_Objects, C01_Catalogue, Json
-CONSTANTS Sweeps, PairDepth, DeepDepth, EmitCases
+CONSTANTS Sweeps, PairDepth, NearDepth, DeepDepth, EmitCases
 VARIABLES todo, hist, sweep
 
 vars == << objs, dict, last, todo, hist, sweep >>
@@ -33,6 +34,14 @@ UPairs == UNION { { << Families[i][a], Families[i][b] >> :
 UPairsLE == UNION { UNION { { << Families[i][a], Families[i][b] >> : b \in a..Len(Families[i]) }
                             : a \in 1..Len(Families[i]) }
                   : i \in 1..Len(Families) }
+\* near pairs: every member with its separately built twin, with the family's base
+\* instance and with its next two neighbours (the catalogue lists ==-twins, colliding
+\* values and class twins next to each other)
+NearPairs == UNION { UNION { { << Families[i][a], Families[i][b] >> :
+                                b \in { b2 \in a..Len(Families[i]) : a = 1 \/ b2 <= a + 2 } }
+                             : a \in 1..Len(Families[i]) }
+                   : i \in 1..Len(Families) }
+
 \* close pairs for the pure model check and the negative controls
 SmallPairs == {
     << Ch("Sum", << x, One >>), Ch("Sum", << x, OneF >>) >>,
@@ -53,7 +62,9 @@ Init ==
     /\ hist = << >>
     /\ sweep \in Sweeps
     /\ todo \in CASE sweep = "pairs" -> UPairsLE
+                  [] sweep = "near"  -> NearPairs
                   [] sweep = "deep"  -> RepPairs \cup RepTriples
+                  [] sweep = "deepq" -> RepPairsQuick \cup RepTriplesQuick
                   [] sweep = "small" -> SmallPairs
                   [] sweep = "sim"   -> UPairs \cup RepTriples
 
@@ -90,7 +101,8 @@ FullAlphabet ==
   \cup { EvGet(i) : i \in I }
 
 Depth == CASE sweep = "pairs" -> PairDepth
-           [] sweep = "deep"  -> DeepDepth
+           [] sweep = "near"  -> NearDepth
+           [] sweep \in {"deep", "deepq"}  -> DeepDepth
            [] sweep = "small" -> DeepDepth
            [] sweep = "sim"   -> 1000
 NNew == Len(SelectSeq(hist, LAMBDA e : e.op = "New"))
@@ -105,7 +117,7 @@ Next ==
     ELSE /\ NOps < Depth
          /\ N >= 1
          /\ ~Deviated          \* a behaviour ends at a named deviation, as a judged trace does
-         /\ \E ev \in (IF sweep = "pairs" THEN PairAlphabet ELSE FullAlphabet) :
+         /\ \E ev \in (IF sweep \in {"pairs", "near"} THEN PairAlphabet ELSE FullAlphabet) :
                /\ Step(ev)
                /\ hist' = Append(hist, ev)
          /\ UNCHANGED << todo, sweep >>
